@@ -9,7 +9,7 @@ validating the trusted `Sem` layer against the compiled behaviour."""
 import copy, itertools, json, os, re, shutil
 import vlib
 from checks.c09 import vlib_corpus
-from specgen import disc_spec, own_field
+from specgen import disc_spec, own_field, site_spec
 
 KIDS = ["Cat", "Dog", "Emu"]
 
@@ -25,6 +25,13 @@ def prepare(case, arena=False):
     if not case["op"].startswith("disc."):
         return case
     i = case["in"]
+    if case["op"] == "disc.site":
+        spec, locs = site_spec(i["d"])
+        out = {"d": i["d"], "all": i.get("all", False), "spec": spec, "sites": locs, "mode": "client-mod",
+               "cfg": {"all_schemas": bool(i.get("all", False)), "no_helpers": True}}
+        if arena:
+            out["want_probes"] = True
+        return {"op": "disc.sitecode" if arena else "disc.site", "in": out}
     out = {"d": i["d"], "all": i.get("all", False), "spec": disc_spec(i["d"]), "mode": "client-mod",
            "cfg": {"all_schemas": bool(i.get("all", False))}}
     if i.get("?only") is not None:
@@ -247,6 +254,160 @@ def cases(ctx):
 
 
 # ------------------------------------------------------------------------------------------------
+# use sites: WHERE and HOW a discriminated union is written (op `disc.site`)
+
+SITE_LEAVES = ["User", "Team", "Squad"]
+# (pos, arr, wrap, on, typenull)
+SPELLINGS = (
+    [("named", a, w, on, False) for a in (False, True) for w, on in ((None, "inner"), ("oneOf", "inner"), ("anyOf", "inner"), ("oneOf", "outer"), ("anyOf", "outer"))]
+    + [("named", False, None, "inner", True)]
+    + [("field", False, w, on, False) for w, on in ((None, "inner"), ("oneOf", "inner"), ("anyOf", "inner"), ("oneOf", "outer"), ("anyOf", "outer"))]
+    + [("field", True, None, "inner", False), ("field", False, None, "inner", True)]
+    + [("io", a, w, on, False) for a in (False, True) for w, on in ((None, "inner"), ("oneOf", "inner"), ("anyOf", "outer"))]
+    + [("io", False, None, "inner", True)])
+# neighbour: (what, where, order)   what: plain | prop (other property name) | map (other mapping) ; where: field | samefield | named | items
+NEIGHBOURS = [None] + [(what, where, order) for what in ("plain", "prop", "map") for where in ("field", "samefield", "named", "items") for order in ("before", "after")]
+
+
+def site_leaves(n, style, alt):
+    out = []
+    for i, name in enumerate(SITE_LEAVES[:n]):
+        t = name.lower()
+        l = {"name": name, "tagname": "kind", "tag": tagprop(style, t, i, [x.lower() for x in SITE_LEAVES[:n]])}
+        if alt:
+            l["alt"] = "type2"
+        out.append(l)
+    return out
+
+
+def site_mapping(mode, members):
+    if mode == "implicit":
+        return None
+    m = [[x.lower(), x] for x in members]
+    if mode == "multi":
+        m.append(["crew", members[-1]])
+    if mode == "partial":
+        m = m[:-1]
+    return m
+
+
+def site_family(spelling, kind, n, style, mode, req, nb, all_schemas):
+    pos, arr, wrap, on, typenull = spelling
+    members = SITE_LEAVES[:n]
+    alt = bool(nb and nb[0] == "prop")
+    d = {"leaves": site_leaves(n, style, alt), "sites": []}
+    main = {"id": "m", "pos": pos, "holder": "Mid", "field": "mid", "req": req, "kind": kind, "members": members, "arr": arr, "wrap": wrap, "typenull": typenull,
+            "disc": {"prop": "kind", "mapping": site_mapping(mode, members), "on": on}}
+    d["sites"].append(main)
+    if nb:
+        what, where, order = nb
+        name = "Aaa" if order == "before" else "Zzz"
+        disc = None
+        if what == "prop":
+            disc = {"prop": "type2", "mapping": [[x.lower(), x] for x in members], "on": "inner"}
+        if what == "map":
+            disc = {"prop": "kind", "mapping": [["x" + x.lower(), x] for x in members], "on": "inner"}
+        t = {"id": "n", "kind": "oneOf", "members": list(reversed(members)), "disc": disc, "arr": where == "items", "wrap": None, "typenull": False}
+        if where == "named":
+            t.update(pos="named", holder=name)
+        elif where == "samefield":
+            if pos != "field":
+                return None
+            t.update(pos="field", holder="Mid", field=name.lower())
+        else:
+            t.update(pos="field", holder=name, field="f")
+        d["sites"].append(t)
+    return {"op": "disc.site", "in": {"d": d, "all": bool(all_schemas)}}
+
+
+def site_structured():
+    out = []
+    for spelling, kind, (n, mode), style, nb in itertools.product(
+            SPELLINGS, ["oneOf", "anyOf"], [(2, "full"), (2, "multi"), (2, "implicit"), (3, "full"), (3, "partial")], ["plain", "const", "enum"], NEIGHBOURS):
+        c = site_family(spelling, kind, n, style, mode, spelling[0] == "field" and kind == "oneOf", nb, False)
+        if c is not None:
+            out.append(c)
+    return out
+
+
+HOLDERS = ["Aaa", "Mid", "Zzz", "Box", "Audit", "Notification"]
+FIELDS = ["a", "mid", "z", "items", "target_kind"]
+
+
+def site_random(r):
+    n = r.randint(2, 4)
+    names = r.sample(["User", "Team", "Squad", "Bot", "Org", "Crew"], n)
+    props = ["kind"] if r.random() < 0.6 else ["kind", "type2"]
+    leaves = []
+    for x in names:
+        style = r.choice(["plain", "plain", "const", "enum", "enum1"])
+        tg = {"plain": ["plain"], "const": ["const", x.lower()], "enum": ["enum", [x.lower(), x.lower() + "2"]], "enum1": ["enum", [x.lower()]]}[style]
+        l = {"name": x, "tagname": "kind", "tag": tg}
+        if len(props) > 1:
+            l["alt"] = "type2"
+        if r.random() < 0.15:
+            l["tagreq"] = False
+        if r.random() < 0.15:
+            l["ownreq"] = True
+        leaves.append(l)
+    sites, used_named, used_fields = [], set(), set()
+    for k in range(r.randint(1, 5)):
+        pos = r.choice(["named", "field", "field", "io"])
+        members = r.sample(names, r.randint(2, min(3, n))) if r.random() < 0.5 else list(names[:2])
+        if r.random() < 0.3:
+            members = list(reversed(members))
+        disc = None
+        if r.random() < 0.75:
+            prop = r.choice(props)
+            mode = r.choice(["full", "full", "multi", "partial", "implicit", "odd"])
+            m = site_mapping(mode if mode != "odd" else "full", members)
+            if mode == "odd":
+                m = [[r.choice(TAGS), x] for x in members]
+                m = list({t: [t, x] for t, x in m}.values())
+            if prop == "type2" and m is None:
+                m = [[x.lower(), x] for x in members]
+            disc = {"prop": prop, "mapping": m, "on": r.choice(["inner", "inner", "outer"])}
+        arr = r.random() < 0.25
+        wrap = r.choice([None, None, "oneOf", "anyOf"])
+        if pos == "field" and arr and wrap:
+            wrap = None          # `[array-of-union, null]` at a property: an enum around the array, outside the modelled grammar
+        st = {"id": "s%d" % k, "pos": pos, "kind": r.choice(["oneOf", "oneOf", "anyOf"]), "members": members, "disc": disc, "arr": arr, "wrap": wrap,
+              "typenull": (not arr and not wrap and r.random() < 0.15)}
+        if pos == "named":
+            free = [h for h in HOLDERS if h not in used_named and not any(h == f[0] for f in used_fields)]
+            if not free:
+                continue
+            st["holder"] = r.choice(free)
+            used_named.add(st["holder"])
+        elif pos == "field":
+            free = [(h, f) for h in HOLDERS for f in FIELDS if h not in used_named and (h, f) not in used_fields]
+            st["holder"], st["field"] = r.choice(free)
+            used_fields.add((st["holder"], st["field"]))
+            st["req"] = r.random() < 0.4
+        sites.append(st)
+    # a body/response schema IDENTICAL to a property-level nullable wrapper gets the pre-computed name of a type that is
+    # never emitted (the property is typed serde_json::Value): dangling type, does not compile — a C01 matter, see DESIGN §12.8
+    def spelling(x):
+        return json.dumps([x["kind"], x["members"], x["disc"], x["arr"], x["wrap"]], sort_keys=True)
+    wrapped_fields = {spelling(x) for x in sites if x["pos"] == "field" and x["wrap"]}
+    sites = [x for x in sites if not (x["pos"] == "io" and x["wrap"] and spelling(x) in wrapped_fields)]
+    if not sites:
+        return site_random(r)
+    nops = len({s["holder"] for s in sites if s["pos"] != "io"}) + sum(1 for s in sites if s["pos"] == "io")
+    if nops > 9:
+        return site_random(r)
+    return {"op": "disc.site", "in": {"d": {"leaves": leaves, "sites": sites}, "all": r.random() < 0.25}}
+
+
+def site_cases(ctx):
+    r = ctx.rng
+    st = site_structured()
+    if ctx.quick:
+        st = r.sample(st, 1800)
+    return st + [site_random(r) for _ in range(1200 if ctx.quick else 6000)]
+
+
+# ------------------------------------------------------------------------------------------------
 # arena (tie A, thorough tier)
 
 def instance(spec, leaf, prop, tag):
@@ -383,12 +544,23 @@ def run(ctx):
     ctx.prepare = prepare
     if driver_ok and ctx.build_harness(["k_disc"]):
         corpus = vlib_corpus(ctx)
-        allc = corpus + cases(ctx)
-        B = 300
-        for i in range(0, len(allc), B):
-            ctx.classify(ctx.evaluate(allc[i:i + B], tie="K+E"), tie="K+E")
-            if len(ctx.violations) >= 3:
-                break
+        allc = corpus + cases(ctx) + site_cases(ctx)
+        B = 250
+        batches = [allc[i:i + B] for i in range(0, len(allc), B)]
+        # implementation + driver runs of the batches are independent processes: run them side by side, classify in order
+        from concurrent.futures import ThreadPoolExecutor
+        with ThreadPoolExecutor(max_workers=min(8, os.cpu_count() or 2)) as ex:
+            def ev(batch):
+                triples = ctx.run_impl([prepare(c) for c in batch])
+                return list(zip(batch, triples, ctx.run_model(triples)))
+            ctx._bin = "hk"
+            futs = [ex.submit(ev, b) for b in batches]
+            for b, f in zip(batches, futs):
+                if len(ctx.violations) >= 3:
+                    f.cancel()
+                    continue
+                ctx.ties["K+E"] = ctx.ties.get("K+E", 0) + len(b)
+                ctx.classify(f.result(), tie="K+E")
         if not ctx.quick and not ctx.violations:
             st = structured(ctx)
             subset = corpus + ctx.rng.sample(st, 160) + [random_case(ctx.rng) for _ in range(140)]
